@@ -68,12 +68,14 @@ func genC26(r *Rand, idx int, tier string) Case {
 		plus := r.Bool()
 		// limits hitting every size residue: header is 100 bytes, entries 24+pad(len) (+104 for plus), trailer 8
 		limit := uint32(PickInt(r, 0, 50, 100, 108, 131, 132, 133, 140, 160, 200, 236, 240, 300, 400, 512, 700, 1000, 4096, 9000, 100+r.Intn(900)))
+		// dircount (READDIRPLUS): a hint; whatever the client says the traversal must still be complete
+		dircount := uint32(PickInt(r, 4096, 4096, 0, 1, 8, 23, 24, 100, 512, 1<<20))
 		cookie := uint64(0)
 		pages := 0
 		for guard := 0; guard < 60; guard++ {
 			q := &nfsx.Req{Proc: "READDIR", H: d, Cookie: cookie, Cnt: limit}
 			if plus {
-				q = &nfsx.Req{Proc: "READDIRPLUS", H: d, Cookie: cookie, Cnt: 4096, Max: limit}
+				q = &nfsx.Req{Proc: "READDIRPLUS", H: d, Cookie: cookie, Cnt: dircount, Max: limit}
 			}
 			o := s.Do(pickAdv(r), root, q).Obs
 			pages++
